@@ -640,4 +640,73 @@ end
 
 end expired
 
+
+/-! ## bulk UPDATE by primary key keeps loaded objects in sync -/
+
+theorem getD_setAt (l : List (Option Int)) (i j : Nat) (v : Option Int) :
+    (setAt l i v).getD j none = if i = j ∧ i < l.length then v else l.getD j none := by
+  simp only [setAt, List.getD_eq_getElem?_getD, List.getElem?_set]
+  by_cases h : i = j
+  · subst h
+    by_cases hl : i < l.length
+    · simp [hl]
+    · simp [hl, List.getElem?_eq_none (Nat.le_of_not_lt hl)]
+  · simp [h]
+
+theorem applyCols_sync (skip : List Nat) (c : Nat) :
+    ∀ (cols : List (Nat × Option Int)) (r1 r2 : List (Option Int)), r1.length = r2.length →
+      (skip.contains c = true ∨ r1.getD c none = r2.getD c none) →
+      (applyCols cols skip r1).length = (applyCols cols [] r2).length ∧
+      (skip.contains c = true ∨ (applyCols cols skip r1).getD c none = (applyCols cols [] r2).getD c none)
+  | [], r1, r2, hl, h => ⟨hl, h⟩
+  | (k, v) :: rest, r1, r2, hl, h => by
+    simp only [applyCols, List.foldl_cons, List.contains_nil, Bool.false_eq_true, if_false]
+    by_cases hk : skip.contains k = true
+    · simp only [hk, if_true]
+      apply applyCols_sync skip c rest r1 (setAt r2 k v) (by simp [setAt, hl])
+      rcases h with h | h
+      · exact Or.inl h
+      · by_cases hkc : k = c
+        · subst hkc; exact Or.inl hk
+        · right
+          rw [getD_setAt, if_neg (fun hh => hkc hh.1)]
+          exact h
+    · simp only [hk]
+      apply applyCols_sync skip c rest (setAt r1 k v) (setAt r2 k v) (by simp [setAt, hl])
+      rcases h with h | h
+      · exact Or.inl h
+      · right; rw [getD_setAt, getD_setAt, hl, h]
+
+/-- a slot is well formed and in sync: same width, every unexpired loaded attribute equals
+    the database value -/
+def SlotOk (s : Slot) : Prop :=
+  ∀ o, s.sess = some o → o.1.length = s.db.length ∧
+    ∀ c, o.2.contains c = true ∨ o.1.getD c none = s.db.getD c none
+
+theorem bulkStep_ok (p : BulkParam) (slots : List Slot) (h : ∀ s ∈ slots, SlotOk s) :
+    ∀ s ∈ bulkStep p slots, SlotOk s := by
+  intro s hs
+  obtain ⟨s0, hs0, rfl⟩ := List.mem_map.1 hs
+  have h0 := h s0 hs0
+  by_cases hp : (s0.pk == p.1) = true
+  · simp only [hp, if_true]
+    intro o ho
+    cases hse : s0.sess with
+    | none => simp [hse] at ho
+    | some o0 =>
+      simp only [hse, Option.map_some, Option.some.injEq] at ho
+      subst ho
+      obtain ⟨hl, hc⟩ := h0 o0 hse
+      refine ⟨(applyCols_sync o0.2 0 p.2 o0.1 s0.db hl (hc 0)).1, ?_⟩
+      intro c
+      exact (applyCols_sync o0.2 c p.2 o0.1 s0.db hl (hc c)).2
+  · simp only [hp]; exact h0
+
+theorem bulkByPk_ok : ∀ (params : List BulkParam) (slots : List Slot), (∀ s ∈ slots, SlotOk s) →
+    ∀ s ∈ bulkByPk params slots, SlotOk s
+  | [], slots, h => by simpa [bulkByPk] using h
+  | p :: ps, slots, h => by
+    simp only [bulkByPk, List.foldl_cons]
+    exact bulkByPk_ok ps (bulkStep p slots) (bulkStep_ok p slots h)
+
 end SaVerif.Eval
